@@ -273,6 +273,10 @@ type outcome struct {
 	fkReject bool // the (possible) rejection is caused by a foreign key
 	// actionRows[t]: rows of table t deleted / rewritten by the statement and its referential actions
 	actionRows map[int]int
+	// orderDep: some row is both deleted and has a referenced key rewritten by the statement
+	// (two constraints, or two parent rows, act on it): whether the grandchildren see the
+	// ON DELETE or the ON UPDATE action depends on the visiting order
+	orderDep bool
 }
 
 // exec runs one statement in "lenient" mode: referential actions are applied, RESTRICT /
@@ -293,6 +297,23 @@ type exec struct {
 	selfRows bool
 	fkReject bool
 	actRows  map[int]int
+	orderDep bool
+}
+
+// propagates reports whether rewriting the columns of a row of table t has referential
+// actions of its own (the columns belong to a key that an active constraint references).
+func (e *exec) propagates(t int, cols map[int]bool) bool {
+	for _, f := range e.sc.fks {
+		if !f.active || f.parent != t {
+			continue
+		}
+		for _, c := range f.pcols {
+			if cols[c] {
+				return true
+			}
+		}
+	}
+	return false
 }
 
 func newExec(sc *schema, pre *state) *exec {
@@ -319,6 +340,9 @@ func (e *exec) deleteRow(t, rid, depth int) {
 	r := e.cur.find(t, rid)
 	if r == nil {
 		return
+	}
+	if e.propagates(t, e.changed[rid]) {
+		e.orderDep = true
 	}
 	old := append([]int64(nil), r.v...)
 	e.cur.remove(t, rid)
@@ -354,6 +378,15 @@ func (e *exec) deleteRow(t, rid, depth int) {
 func (e *exec) updateRow(t, rid int, set map[int]int64, via *fkDef, depth int) {
 	r := e.cur.find(t, rid)
 	if r == nil {
+		if e.deleted[rid] {
+			cols := map[int]bool{}
+			for c := range set {
+				cols[c] = true
+			}
+			if e.propagates(t, cols) {
+				e.orderDep = true
+			}
+		}
 		return
 	}
 	old := append([]int64(nil), r.v...)
@@ -496,7 +529,7 @@ func (e *exec) judge() outcome {
 			e.definite = append(e.definite, "duplicate unique key in "+e.sc.tables[t].name)
 		}
 	}
-	o := outcome{final: e.cur, depth: e.depth, selfRows: e.selfRows, fkReject: e.fkReject, actionRows: e.actRows}
+	o := outcome{final: e.cur, depth: e.depth, selfRows: e.selfRows, fkReject: e.fkReject, actionRows: e.actRows, orderDep: e.orderDep}
 	switch {
 	case len(e.definite) > 0:
 		o.class = mustFail
